@@ -69,6 +69,32 @@ def history():
         lambda: ndx.maximum if False else ndx.max(ndx.asarray([ndx.e.to_numpy().item(), 1.0])),
         lambda: ndx.isnan(ndx.nan), lambda: ndx.equal(ndx.inf, ndx.inf), lambda: ndx.logical_and(ndx.asarray(True), True),
     ]
+    # systematic: every library constant and two user arrays as every array-like argument of functions that take
+    # values besides their main operand, against operands of other dtypes, on data and on placeholders
+    user_f = ndx.asarray(2.5)
+    lz32 = ndx.array(shape=("N",), dtype=ndx.float32)
+    lzi = ndx.array(shape=("N",), dtype=ndx.int32)
+    def sweep_args():
+        consts = [ndx.pi, ndx.e, ndx.nan, ndx.inf, user, user_f]
+        for c in consts:
+            for t in (f32, i32, lz32, lzi, ndx.asarray(np.array([1, 2], dtype=np.int16)), ndx.asarray(np.array([1.0, 2.0], dtype=np.float32))):
+                for call in (
+                    lambda: ndx.full_like(t, c), lambda: ndx.full_like(t, c, dtype=ndx.float32), lambda: ndx.full((2,), c),
+                    lambda: ndx.full((2,), c, dtype=ndx.int32), lambda: ndx.where(t > 0, t, c), lambda: ndx.where(t > 0, c, t),
+                    lambda: ndx.clip(t, min=c), lambda: ndx.clip(t, max=c), lambda: ndx.additional.fill_null(t, c),
+                    lambda: ndx.add(t, c), lambda: ndx.multiply(c, t), lambda: ndx.pow(t, c), lambda: ndx.less(t, c), lambda: ndx.equal(c, t),
+                    lambda: ndx.astype(c, t.dtype), lambda: ndx.asarray(c, dtype=t.dtype),  # (explicit copy=False requests may re-type in place: excepted)
+                    lambda: ndx.broadcast_to(c, (2,)), lambda: ndx.reshape(c, (1,)), lambda: ndx.expand_dims(c, 0), lambda: ndx.concat([t, ndx.reshape(c, (1,))]),
+                    lambda: ndx.stack([c, c]), lambda: ndx.searchsorted(t, ndx.reshape(c, (1,))), lambda: ndx.additional.isin(t, [1]),
+                    lambda: ndx.result_type(t, c), lambda: ndx.arange(0, c), lambda: ndx.linspace(0, c, 3), lambda: t.__setitem__(0, c),
+                    lambda: ndx.additional.make_nullable(ndx.reshape(c, (1,)), ndx.asarray([False])),
+                ):
+                    try:
+                        call()
+                    except Exception:
+                        pass
+    if cfg["history_len"]:
+        sweep_args()
     for k in range(cfg["history_len"]):
         try:
             rng.choice(calls)()
@@ -87,7 +113,8 @@ def history():
         user_dtype = impl.dtname(user.dtype)
     except Exception:
         user_dtype = "?"
-    return {"user_array_dtype": user_dtype, "user_array_value": repr(user.to_numpy().tolist())}
+    return {"user_array_dtype": user_dtype, "user_array_value": repr(user.to_numpy().tolist()),
+            "user_float_array": [impl.dtname(user_f.dtype), repr(user_f.to_numpy().tolist())]}
 
 
 out = {"fp_before": fingerprint()}
@@ -154,7 +181,7 @@ def run(ctx: common.Ctx):
             diff = {k: (base["fp_before"].get(k), r["fp_after_history"].get(k)) for k in r["fp_after_history"] if r["fp_after_history"].get(k) != base["fp_before"].get(k)}
             ctx.violation("constants/changed-by-history", f"{label}: library constants changed by unrelated activity: {diff}", {"run": label, "diff": diff})
         h = r.get("history")
-        if h and (h["user_array_dtype"] != "int64" or h["user_array_value"] != "7"):
+        if h and (h["user_array_dtype"] != "int64" or h["user_array_value"] != "7" or h.get("user_float_array", ["float64", "2.5"]) != ["float64", "2.5"]):
             ctx.violation("argument/changed-by-history", f"{label}: a user array passed to library functions changed: {h}", {"run": label, **h})
         for name, m in r["models"].items():
             ctx.case((label, name), True)
